@@ -7,7 +7,7 @@
 //!     checksum on/off, source write chunking and sink schedule.
 //!  2. reader: `Dearmor` over the library output and over reference-produced formatting variants
 //!     must give the same (bytes, type, headers, checksum field) for every source read schedule,
-//!     source wrapper and consumer pattern.
+//!     source wrapper, consumer pattern and consumer call sequence (families A, L and P).
 //!  3. CRC option: accepted iff the checksum matches; status values.
 //!  4. `to_armored_*` / `from_armor*` of keys, messages, detached signatures.
 //!
@@ -19,9 +19,17 @@
 //!    string-vs-bytes, read-error/<api>, roundtrip-differs/<api>, headers-differ/<api>}`.
 //!  * `C10/reader/<symptom>/<variant>` with symptom in `armor-header-error`, `armor-footer-error`,
 //!    `crc-error`, `other-error`, `type-differs`, `data-differs`, `headers-differ`,
-//!    `checksum-field-differs`, `status-differs`, `rest-differs`; the same with
+//!    `checksum-field-differs`, `status-differs`, `rest-differs`, `data-after-end` (calls made after
+//!    the end of the stream was reported deliver octets); the same with
 //!    `schedule-dependent/` in front when the baseline drive (whole input in one window) of the same
 //!    input met the expectation.
+//!  * `C10/reader/call-sequence-dependent/<symptom>` (no input class): the same input over the same
+//!    source side and entry point meets the expectation when the consumer uses plain `read_to_end`,
+//!    but not under a legal, unusual call sequence on the `Read` side of the `Dearmor` (zero-length
+//!    reads before / between / after real reads, 1-octet reads, a read of exactly the data length,
+//!    reads larger than the data, calls after the end, `read` mixed with `read_to_end`, `take`,
+//!    `read_vectored`; see `PAT_NAMES`). With the CRC option on, the same drives report under
+//!    `C10/crc-check/<symptom>/call-pattern`.
 //!  * `C10/crc-check/<symptom>/<variant>`: `no-checksum-rejected`, `status-differs/no-checksum`,
 //!    `status-differs/correct-checksum`, `data-differs`, `correct-checksum-rejected/calc=other`,
 //!    `wrong-checksum-accepted`, `wrong-checksum-other-failure`, `<error class>`.
@@ -523,6 +531,217 @@ fn ref_format(label: &str, pairs: &[(String, String)], data: &[u8], crc: Option<
 }
 
 // ------------------------------------------------------------------------------------------
+// consumer call sequences that `shim::Consume` does not have: legal but unusual uses of `Read`
+// (zero-length reads before / between / after real reads, reads of exactly the data length, reads
+// larger than the data, calls after the end of the stream, `read` mixed with `read_to_end`, `take`
+// and `read_vectored`). None of them may change what the dearmorer delivers.
+
+#[derive(Clone, Debug)]
+enum Op {
+    /// `read` into a buffer of this many octets; 0 is legal and says nothing about the end
+    Read(usize),
+    /// `read_vectored` over buffers of these sizes (without buffers, or with empty ones only, the
+    /// std default implementation hands an empty slice to `read`)
+    Vectored(Vec<usize>),
+    /// `by_ref().take(n).read_to_end(..)`
+    Take(usize),
+    /// `read_to_end`
+    ToEnd,
+}
+
+#[derive(Clone, Debug)]
+struct Pat {
+    /// stable class name (coverage set `call_patterns`)
+    name: &'static str,
+    /// calls made once at the start
+    pre: Vec<Op>,
+    /// calls repeated until one of them observes the end of the stream
+    cycle: Vec<Op>,
+}
+
+/// calls made after the end of the stream was observed: each has to report the end again
+fn after_end_ops() -> Vec<Op> {
+    vec![Op::Read(0), Op::Read(1), Op::ToEnd, Op::Read(4096), Op::Vectored(vec![]), Op::Take(5), Op::Read(0)]
+}
+
+const PAT_NAMES: [&str; 16] = [
+    "zero,to-end",
+    "zero,zero,(read1)*",
+    "(read1,zero)*",
+    "(read-k,zero)*",
+    "read-part,zero,to-end",
+    "read-len,zero,to-end",
+    "read-len,zero,(read1)*",
+    "(read-len+1)*",
+    "(read-larger-than-data)*",
+    "read-part,to-end",
+    "(take-k)*",
+    "take0,(take-k,zero)*",
+    "vectored-none,(vectored,vectored-empty)*",
+    "(random-sizes-with-zeros)*",
+    "(zero,read-k)*",
+    "to-end",
+];
+
+/// the k-th call pattern for an armor whose data has `len` octets; sizes come from the edges of
+/// the decoder's windows and from `rng`
+fn pat_k(k: usize, len: usize, rng: &mut rand_chacha::ChaCha8Rng) -> Pat {
+    const EDGE: [usize; 14] = [1, 2, 3, 7, 47, 48, 49, 64, 100, 767, 768, 769, 1024, 4096];
+    let mut edge = |rng: &mut rand_chacha::ChaCha8Rng| {
+        if rng.gen_range(0..4) == 0 {
+            rng.gen_range(1..=len.max(1))
+        } else {
+            EDGE[rng.gen_range(0..EDGE.len())]
+        }
+    };
+    let e = edge(rng);
+    // a size that ends inside the data
+    let part = if len <= 1 {
+        1
+    } else {
+        match rng.gen_range(0..5) {
+            0 => 1,
+            1 => (len / 3).max(1),
+            2 => len / 2,
+            3 => len - 1,
+            _ => rng.gen_range(1..len),
+        }
+    };
+    use Op::*;
+    let i = k % PAT_NAMES.len();
+    let (pre, cycle) = match i {
+        0 => (vec![Read(0)], vec![ToEnd]),
+        1 => (vec![Read(0), Read(0)], vec![Read(1)]),
+        2 => (vec![], vec![Read(1), Read(0)]),
+        3 => (vec![], vec![Read(e), Read(0)]),
+        4 => (vec![Read(part), Read(0)], vec![ToEnd]),
+        5 => (vec![Read(len), Read(0)], vec![ToEnd]),
+        6 => (vec![Read(len), Read(0)], vec![Read(1)]),
+        7 => (vec![], vec![Read(len + 1)]),
+        8 => (vec![], vec![Read(2 * len + 8192)]),
+        9 => (vec![Read(part)], vec![ToEnd]),
+        10 => (vec![], vec![Take(e)]),
+        11 => (vec![Take(0)], vec![Take(e), Read(0)]),
+        12 => (vec![Vectored(vec![])], vec![Vectored(vec![0, e, 3]), Vectored(vec![0, 0])]),
+        13 => {
+            let mut c: Vec<Op> = (0..12).map(|_| if rng.gen_range(0..3) == 0 { Read(0) } else { Read(edge(rng)) }).collect();
+            c.push(Read(e));
+            (vec![], c)
+        }
+        14 => (vec![], vec![Read(0), Read(e)]),
+        _ => (vec![], vec![ToEnd]),
+    };
+    Pat { name: PAT_NAMES[i], pre, cycle }
+}
+
+impl Pat {
+    fn describe(&self) -> String {
+        format!("calls[{}] start={:?} repeat={:?}", self.name, self.pre, self.cycle)
+    }
+}
+
+/// One call. Appends what was delivered; Ok(true) = the call observed the end of the stream.
+fn do_op<R: Read>(r: &mut R, op: &Op, out: &mut Vec<u8>) -> io::Result<bool> {
+    match op {
+        Op::Read(n) => {
+            let mut buf = vec![0xA5u8; *n];
+            let k = r.read(&mut buf)?;
+            if k > *n {
+                return Err(io::Error::other(format!("read into {n} octets returned {k}")));
+            }
+            out.extend_from_slice(&buf[..k]);
+            Ok(*n > 0 && k == 0)
+        }
+        Op::Vectored(sizes) => {
+            let mut bufs: Vec<Vec<u8>> = sizes.iter().map(|n| vec![0xA5u8; *n]).collect();
+            let total: usize = sizes.iter().sum();
+            let k = {
+                let mut sl: Vec<io::IoSliceMut> = bufs.iter_mut().map(|b| io::IoSliceMut::new(&mut b[..])).collect();
+                r.read_vectored(&mut sl)?
+            };
+            if k > total {
+                return Err(io::Error::other(format!("read_vectored into {total} octets returned {k}")));
+            }
+            let mut left = k;
+            for b in &bufs {
+                let n = left.min(b.len());
+                out.extend_from_slice(&b[..n]);
+                left -= n;
+            }
+            Ok(total > 0 && k == 0)
+        }
+        Op::Take(n) => {
+            let mut v = vec![];
+            let res = r.by_ref().take(*n as u64).read_to_end(&mut v);
+            out.extend_from_slice(&v);
+            let k = res?;
+            Ok(k < *n)
+        }
+        Op::ToEnd => {
+            let mut v = vec![];
+            let res = r.read_to_end(&mut v);
+            out.extend_from_slice(&v);
+            res?;
+            Ok(true)
+        }
+    }
+}
+
+struct PatRun {
+    data: Vec<u8>,
+    err: Option<String>,
+    /// octets delivered by calls made after the end of the stream had been reported
+    after_end: usize,
+}
+
+/// Drives `r` with the pattern up to the end of the stream, then makes the calls of
+/// `after_end_ops`. `max_cycles` bounds the repetitions (every repetition delivers at least one
+/// octet or observes the end).
+fn drive_pat<R: Read>(r: &mut R, p: &Pat, max_cycles: usize) -> PatRun {
+    let mut out = vec![];
+    let mut eof = false;
+    let fail = |out: Vec<u8>, what: &str, op: &Op, e: io::Error| PatRun {
+        data: out,
+        err: Some(format!("{e} (in {what} call {op:?})")),
+        after_end: 0,
+    };
+    for op in &p.pre {
+        match do_op(r, op, &mut out) {
+            Ok(e) => eof = e,
+            Err(e) => return fail(out, "start", op, e),
+        }
+        if eof {
+            break;
+        }
+    }
+    let mut cycles = 0usize;
+    while !eof {
+        for op in &p.cycle {
+            match do_op(r, op, &mut out) {
+                Ok(e) => eof = e,
+                Err(e) => return fail(out, "repeated", op, e),
+            }
+            if eof {
+                break;
+            }
+        }
+        cycles += 1;
+        if cycles > max_cycles && !eof {
+            return PatRun { data: out, err: Some("monitor: the call pattern did not reach the end of the stream".into()), after_end: 0 };
+        }
+    }
+    let n_end = out.len();
+    for op in &after_end_ops() {
+        match do_op(r, op, &mut out) {
+            Ok(_) => {}
+            Err(e) => return fail(out, "after-end", op, e),
+        }
+    }
+    let after_end = out.len() - n_end;
+    PatRun { data: out, err: None, after_end }
+}
+
+// ------------------------------------------------------------------------------------------
 // driving the Dearmor
 
 #[derive(Clone, Debug)]
@@ -555,18 +774,23 @@ struct Drive {
     /// the first window handed to the Dearmor covers everything up to the start of the body
     /// (leading text, BEGIN line, header lines, separator line); the schedule applies after it
     safe: bool,
+    /// call sequence on the consumer side that `shim::Consume` does not have (replaces `cons`)
+    pat: Option<Pat>,
 }
 
 impl Drive {
     fn baseline() -> Self {
-        Drive { sched: Sched::All, src: Src::Direct, cons: Consume::ToEnd, entry: 0, safe: false }
+        Drive { sched: Sched::All, src: Src::Direct, cons: Consume::ToEnd, entry: 0, safe: false, pat: None }
     }
     fn name(&self) -> String {
         format!(
             "{}|{}|{}|{}{}",
             self.sched.name(),
             self.src.name(),
-            self.cons.name(),
+            match &self.pat {
+                Some(p) => p.describe(),
+                None => self.cons.name(),
+            },
             ENTRY_NAMES[self.entry as usize],
             if self.safe { "|head-in-one-window" } else { "" }
         )
@@ -596,7 +820,19 @@ impl Drive {
         format!("{}|{}{}", sc, self.src.name(), if self.safe { "|safe" } else { "" })
     }
     fn is_baseline(&self) -> bool {
-        matches!(self.sched, Sched::All) && matches!(self.src, Src::Direct)
+        matches!(self.sched, Sched::All) && matches!(self.src, Src::Direct) && self.pat.is_none()
+    }
+    /// the same drive with this consumer call sequence
+    fn with_pat(mut self, p: Pat) -> Self {
+        self.pat = Some(p);
+        self
+    }
+    /// the same source side and entry point, consumer = plain `read_to_end`
+    fn plain_consumer(&self) -> Self {
+        let mut d = self.clone();
+        d.pat = None;
+        d.cons = Consume::ToEnd;
+        d
     }
 }
 
@@ -653,6 +889,7 @@ fn drive_k(k: usize, seed: u64) -> Drive {
         cons: cl[(k / 3 + k / 7) % cl.len()].clone(),
         entry: [0u8, 0, 1, 0, 2][k % 5],
         safe: false,
+        pat: None,
     }
 }
 
@@ -720,6 +957,8 @@ struct Got {
     status: ArmorCrc24Status,
     /// bytes left in the reader after the armor (only when finished cleanly)
     rest: Option<Vec<u8>>,
+    /// octets delivered by calls made after the end of the stream had been reported
+    after_end: usize,
 }
 
 fn flatten(h: &Headers) -> Vec<(String, String)> {
@@ -762,15 +1001,26 @@ fn run_dearmor(input: &[u8], d: &Drive, opts: DearmorOptions, want_rest: bool) -
                     checksum: None,
                     status: ArmorCrc24Status::NoCrc24,
                     rest: None,
+                    after_end: 0,
                 }
             }
         }
     }
     let mut data = vec![];
+    let mut after_end = 0;
     if err.is_none() {
-        let dr = drain_read(&mut de, &d.cons);
-        data = dr.data;
-        err = dr.err.map(|e| e.to_string());
+        if let Some(p) = &d.pat {
+            // every repetition of a pattern delivers an octet or ends: more repetitions than
+            // encoded octets means that the dearmorer delivers data without end
+            let pr = drive_pat(&mut de, p, input.len() + 64);
+            data = pr.data;
+            err = pr.err;
+            after_end = pr.after_end;
+        } else {
+            let dr = drain_read(&mut de, &d.cons);
+            data = dr.data;
+            err = dr.err.map(|e| e.to_string());
+        }
     }
     let typ = de.typ;
     let pairs = flatten(&de.headers);
@@ -784,7 +1034,7 @@ fn run_dearmor(input: &[u8], d: &Drive, opts: DearmorOptions, want_rest: bool) -
             rest = Some(v);
         }
     }
-    Got { data, err, typ, pairs, checksum, status, rest }
+    Got { data, err, typ, pairs, checksum, status, rest, after_end }
 }
 
 fn status_name(s: &ArmorCrc24Status) -> &'static str {
@@ -823,6 +1073,12 @@ struct Expect<'a> {
 fn mismatch(got: &Got, ex: &Expect) -> Option<(String, String)> {
     if let Some(e) = &got.err {
         return Some((err_class(e).to_string(), format!("error: {e}")));
+    }
+    if got.after_end > 0 {
+        return Some((
+            "data-after-end".into(),
+            format!("{} octets delivered by calls made after the end of the stream had been reported", got.after_end),
+        ));
     }
     if got.typ != Some(ex.typ) {
         return Some(("type-differs".into(), format!("type {:?}, want {:?}", got.typ, ex.typ)));
@@ -979,7 +1235,10 @@ impl Mon<'_> {
         });
         self.ctx.seen("source_wrappers", d.src.name());
         self.ctx.seen("entries", ENTRY_NAMES[d.entry as usize]);
-        self.ctx.seen("consumers", d.cons.name());
+        match &d.pat {
+            Some(p) => self.ctx.seen("call_patterns", p.name),
+            None => self.ctx.seen("consumers", d.cons.name()),
+        }
         let mut mm = mismatch(&got, ex);
         if mm.is_none() {
             let want_status = match ex.footer {
@@ -1008,15 +1267,43 @@ impl Mon<'_> {
                     SIG_HEADER_SPLIT.to_string()
                 } else if sy == "headers-differ" && ex.colon {
                     format!("C10/reader/headers-differ/{COLON_CLASS}")
+                } else if base_ok == Some(true) && d.pat.is_some() {
+                    // base_ok of a call-pattern drive comes from the same source side read with
+                    // plain read_to_end (check_read_calls)
+                    // (one signature per symptom: the input class is in the detail and the replay)
+                    format!("C10/reader/call-sequence-dependent/{sy}")
                 } else if base_ok == Some(true) && !d.is_baseline() {
                     format!("C10/reader/schedule-dependent/{sy}/{inclass}")
                 } else {
                     format!("C10/reader/{sy}/{inclass}")
                 };
-                self.ctx.violation(sig, format!("{det}; drive {}; data len {}", d.name(), ex.data.len()), rp());
+                self.ctx.violation(sig, format!("{det}; drive {}; data len {}; input class {inclass}", d.name(), ex.data.len()), rp());
                 false
             }
         }
+    }
+
+    /// Oracle 2 for a consumer call pattern (`d.pat`): the same source side and entry point are
+    /// first read with plain `read_to_end`; when that meets the expectation, a failure of the
+    /// pattern drive is a dependence on the caller's call sequence.
+    #[allow(clippy::too_many_arguments)]
+    fn check_read_calls(
+        &mut self,
+        input: &[u8],
+        ex: &Expect,
+        d: &Drive,
+        inclass: &str,
+        base_ok: Option<bool>,
+        want_rest: Option<&[u8]>,
+        replay: &Value,
+    ) -> bool {
+        let plain = d.plain_consumer();
+        let ok = if plain.is_baseline() && plain.entry == 0 && base_ok.is_some() {
+            base_ok == Some(true)
+        } else {
+            self.check_read(input, ex, &plain, inclass, base_ok, None, replay)
+        };
+        self.check_read(input, ex, d, inclass, Some(ok), want_rest, replay)
     }
 
     /// Oracle 3: CRC check enabled.
@@ -1268,6 +1555,12 @@ pub fn run(ctx: &mut Ctx) {
             // CRC check enabled on the library output
             let d = drive_k(kk + ci, seed).for_pairs(&pairs, kk);
             m.check_crc(&out, &data, ex.footer, &d, &inclass, &replay);
+            // one consumer call pattern (rotating), over the baseline source and over a rotating one
+            let pk = kk + ci * 7;
+            let pat = pat_k(pk, len, &mut rng);
+            m.ctx.cover(&("A-c", len, crc, pat.name));
+            let d = if r % 2 == 0 { base.clone() } else { drive_k(kk * 5 + ci, seed).for_pairs(&pairs, kk) };
+            m.check_read_calls(&out, &ex, &d.with_pat(pat), &inclass, Some(bok), Some(b""), &replay);
         }
 
         // formatting variants produced by the reference
@@ -1287,6 +1580,13 @@ pub fn run(ctx: &mut Ctx) {
             m.ctx.seen("schedules", d.class());
             m.ctx.cover(&("A-v", len, vname, with_crc, d.class()));
             m.check_read(&input, &ex, &d, &inclass, Some(bok), None, &replay);
+            // two of the variants per repetition also with a consumer call pattern
+            if vi % 8 == kk % 8 {
+                let pat = pat_k(kk / 8 + vi + r, len, &mut rng);
+                m.ctx.cover(&("A-vc", len, vname, with_crc, pat.name));
+                let dp = if vi < 8 { base.clone() } else { d.clone() };
+                m.check_read_calls(&input, &ex, &dp.with_pat(pat), &inclass, Some(bok), None, &replay);
+            }
             // CRC option over the variant: correct / absent, and one wrong value
             let d2 = drive_k(kk * 11 + vi + 1, seed).for_pairs(&pairs, kk);
             m.check_crc(&input, &data, footer, &d2, &inclass, &replay);
@@ -1458,6 +1758,7 @@ pub fn run(ctx: &mut Ctx) {
                             cons: cl[(k / 2) % cl.len()].clone(),
                             entry: [0u8, 1, 0, 2][k % 4],
                             safe: false,
+                            pat: None,
                         };
                         // inputs with header lines: the head goes in one window; the raw schedule
                         // (which cuts header lines) is exercised once per (type, header set) cell
@@ -1548,7 +1849,7 @@ pub fn run(ctx: &mut Ctx) {
                             if vi != 0 && (ci + li + vi) % 3 != 0 {
                                 continue;
                             }
-                            let d = Drive { sched: sc.clone(), src: src.clone(), cons: cons.clone(), entry: ((ci + vi) % 3) as u8, safe: false };
+                            let d = Drive { sched: sc.clone(), src: src.clone(), cons: cons.clone(), entry: ((ci + vi) % 3) as u8, safe: false, pat: None };
                             if !pairs.is_empty() {
                                 if matches!(src, Src::StdCap(_)) {
                                     continue;
@@ -1572,6 +1873,96 @@ pub fn run(ctx: &mut Ctx) {
     }
 
     lap(m.ctx, "S");
+    // --------------------------------------------------------------------------------------
+    // Family P: consumer call patterns — every pattern of PAT_NAMES x data length classes (empty,
+    // below / on / above a base64 quantum, a 64-column line, the decoder's 1024-character window
+    // and multiples of it, larger) x checksum line present / absent x library output and
+    // reference-formatted variants x several source sides and entry points, CRC option off and on.
+    let mut plens: Vec<usize> = if quick {
+        vec![0, 1, 2, 3, 4, 47, 48, 49, 96, 100, 255, 500, 766, 767, 768, 769, 770, 1000, 1535, 1536, 1537, 2000, 2304, 3072, 3073, 5000, 8192, 20000]
+    } else {
+        (0..=100).chain([255, 256, 500, 764, 765, 766, 767, 768, 769, 770, 771, 772, 1000, 1023, 1024, 1025, 1535, 1536, 1537, 2000, 2303, 2304, 2305, 3071, 3072, 3073, 4096, 5000, 8191, 8192, 8193, 20000, 65536, 100_000]).collect()
+    };
+    let nfixed_p = plens.len();
+    plens.extend(std::iter::repeat(0).take(if quick { 8 } else { 64 }));
+    for (li, len0) in plens.clone().into_iter().enumerate() {
+        for with_footer in [true, false] {
+            if !m.ctx.mine() {
+                continue;
+            }
+            let mut rng = m.ctx.rng("P", (li * 2 + with_footer as usize) as u64);
+            let len = if li < nfixed_p { len0 } else { rng.gen_range(1..=6000usize) };
+            crate::core::describe_case(&format!("P len={len} footer={with_footer}"));
+            let data = gen_data(&mut rng, len, if li % 5 == 4 { 3 } else { 7 });
+            let seed = rng.gen::<u64>();
+            let (typ, label) = m.types[(li * 3 + with_footer as usize) % ntypes].clone();
+            // every third length class with header lines (head delivered in one window)
+            let hs = if li % 3 == 2 && typ != BlockType::CleartextMessage { m.hsets[10].clone() } else { m.hsets[0].clone() };
+            let headers = hs.to_headers();
+            let pairs = hs.pairs();
+            let crc_ref = rfc::armor::crc24(&data);
+            let footer = with_footer.then_some(crc_ref);
+            m.ctx.seen("len_mod3", format!("{}", len % 3));
+            let replay = json!({"family": "P", "len": len, "type": label, "headers": hs.name, "pairs": pairs,
+                "with_checksum": with_footer, "data": if len <= 4096 { json!(hexs(&data)) } else { json!(null) }});
+            // inputs: what the library writes, and three formatting variants from the reference
+            let mut inputs: Vec<(String, Vec<u8>, Option<u32>, bool)> = vec![];
+            let out = m.ctx.guarded("C10/writer", || replay.clone(), || {
+                lib_write(&data, typ, headers.as_ref(), with_footer, &Chunking::Whole, &Sched::All)
+            });
+            match out {
+                Some(Ok(o)) => {
+                    if let Some(emitted) = emitted_footer(&o) {
+                        inputs.push(("lib-output".into(), o, emitted, true));
+                    } else {
+                        m.check_writer("writer", &o, &label, &pairs, &data, with_footer, &replay);
+                    }
+                }
+                Some(Err(e)) => m.ctx.violation("C10/writer/error", format!("armor::write failed: {e}"), replay.clone()),
+                None => {}
+            }
+            for j in 0..3 {
+                let vname = if j == 0 { "plain" } else { VARIANTS[(li * 2 + j + with_footer as usize) % VARIANTS.len()] };
+                let input = ref_format(&label, &pairs, &data, footer, &variant_fmt(vname, li + j));
+                inputs.push((vname.to_string(), input, footer, false));
+            }
+            for (ii, (inclass, input, foot, is_lib)) in inputs.iter().enumerate() {
+                let ex = Expect { data: &data, typ, pairs: &pairs, footer: *foot, colon: false };
+                let want_rest: Option<&[u8]> = if *is_lib { Some(b"") } else { None };
+                let mut replay = replay.clone();
+                replay["input_class"] = json!(inclass);
+                let replay = &replay;
+                let bok = m.check_read(input, &ex, &base, inclass, None, want_rest, &replay);
+                // source sides: the baseline and two rotating ones, the plain consumer first
+                let mut sides = vec![base.clone()];
+                for j in 0..2 {
+                    let mut d = drive_k(li * 7 + ii * 3 + j + with_footer as usize * 5, seed).for_pairs(&pairs, li + j);
+                    d.entry = ((li + ii + j) % 3) as u8;
+                    sides.push(d);
+                }
+                for (si, side) in sides.iter().enumerate() {
+                    let plain = side.plain_consumer();
+                    let sok = if si == 0 { bok } else { m.check_read(input, &ex, &plain, inclass, Some(bok), None, &replay) };
+                    m.ctx.seen("schedules", side.class());
+                    for pi in 0..PAT_NAMES.len() {
+                        // the large inputs take the patterns in rotation on the non-baseline sides
+                        if si > 0 && len > 8192 && (pi + li + si) % 4 != 0 {
+                            continue;
+                        }
+                        let pat = pat_k(pi, len, &mut rng);
+                        m.ctx.cover(&("P", len, with_footer, inclass.clone(), pat.name, side.class(), side.entry));
+                        let d = plain.clone().with_pat(pat);
+                        m.check_read(input, &ex, &d, inclass, Some(sok), want_rest, &replay);
+                        // CRC option on (Dearmor::after_header takes no options: entry 2 becomes 0)
+                        if (pi + si + ii) % 2 == 0 {
+                            m.check_crc_h(input, &data, *foot, &d, "call-pattern", !pairs.is_empty(), &replay);
+                        }
+                    }
+                }
+            }
+        }
+    }
+    lap(m.ctx, "P");
     // --------------------------------------------------------------------------------------
     // Family L: large payloads (sampled sizes up to 1 MiB in thorough, 192 KiB in quick)
     let mut lsizes: Vec<usize> = vec![4097, 8191, 8192, 8193, 12288, 16383, 16384, 16385, 49152, 65535, 65536, 65537];
@@ -1625,6 +2016,12 @@ pub fn run(ctx: &mut Ctx) {
             m.check_read(&out, &ex, &d, "lib-output", Some(bok), None, &replay);
         }
         m.check_crc(&out, &data, ex.footer, &drive_k(i, seed).for_pairs(&pairs, i), "lib-output", &replay);
+        {
+            let pat = pat_k(i, len, &mut rng);
+            let d = if i % 2 == 0 { base.clone() } else { drive_k(i * 7 + 2, seed).for_pairs(&pairs, i) };
+            m.ctx.cover(&("L-c", len, pat.name));
+            m.check_read_calls(&out, &ex, &d.with_pat(pat), "lib-output", Some(bok), Some(b""), &replay);
+        }
         for j in 0..3 {
             let vi = (i + j * 5) % VARIANTS.len();
             let vname = VARIANTS[vi];
